@@ -341,3 +341,31 @@ def basin_graph_cases(seed, count, max_side, tag, high_degree=0):
                  dict(op="update", g=0, z=dict(k="int", m=m, e=0)),
                  dict(op="bgraph", g=0, m="kruskal"), dict(op="bgraph", g=0, m="boruvka"), dict(op="drop", g=0)]
         yield flow_case("%s-hd-%d-%d" % (tag, seed, i), g, steps, timeout_ms=30000)
+    for i in range(high_degree):
+        # several bowls side by side, separated by flat ridges, inside a border of base levels at a
+        # constant level: every border node is an outer basin, every bowl an inner basin of degree
+        # well above 16, and dozens of passes are tied (parallel equal-weight edges after collapse)
+        nb_bowls = rng.choice([2, 3, 3])
+        w = rng.randint(3, 5)
+        nr = rng.randint(6, 9)
+        nc = 2 + nb_bowls * w + (nb_bowls - 1)
+        g = gen.raster(nr, nc, "queen", [gen.FV] * 4)
+        B, R = rng.randint(0, 3), rng.randint(4, 7)
+        steps = [dict(op="new", g=0, ops=[gen.op_single()])]
+        for rep in range(3):
+            m = [B] * (nr * nc)
+            floors = [rng.randint(0, 3) for _ in range(nb_bowls)]
+            if rng.random() < 0.5:
+                floors = [floors[0]] * nb_bowls
+            for r in range(1, nr - 1):
+                for c in range(1, nc - 1):
+                    k, off = divmod(c - 1, w + 1)
+                    if off == w:                      # ridge column between two bowls
+                        m[r * nc + c] = R if rng.random() < 0.8 else R + rng.randint(0, 1)
+                    else:
+                        rim = (r in (1, nr - 2)) or (k == 0 and off == 0) or (k == nb_bowls - 1 and off == w - 1)
+                        m[r * nc + c] = (R - rng.choice([0, 0, 1])) if rim else floors[k] + rng.choice([0, 0, 0, 1])
+            steps += [dict(op="update", g=0, z=dict(k="int", m=m, e=0)),
+                      dict(op="bgraph", g=0, m="kruskal"), dict(op="bgraph", g=0, m="boruvka")]
+        steps.append(dict(op="drop", g=0))
+        yield flow_case("%s-bowls-%d-%d" % (tag, seed, i), g, steps, timeout_ms=30000)
